@@ -24,7 +24,7 @@ func init() {
 		Plan: func(tier string, seed int64) *harness.Plan {
 			sys := newSysCases("quick")
 			return &harness.Plan{
-				N:     sys.n() + len(gen.OpaqueKinds)*40 + size(tier, 150000, 2500000),
+				N:     sys.n() + len(gen.OpaqueKinds)*40 + size(tier, 150000, 12000000),
 				Setup: func(c *harness.Ctx) { hooksOn() },
 				Run: func(c *harness.Ctx, k int) {
 					r := c.Rand()
